@@ -17,7 +17,7 @@ ASSUME = [
 def run(ctx):
     from mirsym import spec_page, spec_reader
     tier = ctx["tier"]
-    scen = spec_page.reader_scenarios() + spec_page.reader_short_and_fault_scenarios(tier)[3:] + spec_reader.scenarios(tier)[:2] + spec_page.writer_scenarios()[:1] + spec_page.writer_scenarios()[2:3]
+    scen = spec_page.reader_history_scenarios(tier) + spec_page.reader_scenarios() + spec_page.reader_short_and_fault_scenarios(tier)[3:] + spec_reader.scenarios(tier)[:2] + spec_page.writer_scenarios()[:1] + spec_page.writer_scenarios()[2:3]
     obls, samples = mlane.run_scenarios("C07", "O07", scen, ctx, "arbitrary INV states, devices <= 8 pages (validate_crc <= 5)")
     obls += kp.run_k("C07", "c07", kp.F_PR, kp.crc_specs(tier) + kp.reader_small_specs(tier), ctx)
     return dict(obligations=obls, functions=FUNCTIONS, assumptions=ASSUME, samples=samples,
